@@ -318,7 +318,10 @@ pub fn run(prop: &dyn DynProp, a: ParentArgs) -> i32 {
     let mut violations: Vec<(FoundFailure, String)> = Vec::new();
     for f in failures {
         if f.failure.kind == "harness-bug" {
-            infra.push(format!("harness bug: {} — {}", f.failure.clause, f.failure.detail));
+            if seen.insert(f.failure.signature()) {
+                let path = write_replay(&a.root, id, &f);
+                infra.push(format!("harness bug: {} — {} (case saved to {path})", f.failure.clause, f.failure.detail));
+            }
             continue;
         }
         let sig = f.failure.signature();
